@@ -40,45 +40,50 @@ theorem flOr_list_mem (st : State) (k : Key) (H : List Op) (h : Prov H st) :
     exact h (k, fl) (lookup_mem st k fl hl)
   · intro g hg; cases hg
 
+theorem insert_none (fl : FL) (f : Frag) (t : Int) (h : place fl f = none) : fl.insert f t = (fl, .none) := by
+  unfold FL.insert; rw [h]
+
+theorem insert_some (fl : FL) (f : Frag) (t : Int) (l : List Frag) (h : place fl f = some l) :
+    fl.insert f t = (fl.upd l f t, if (fl.upd l f t).ready then build (fl.upd l f t) f else .none) := by
+  unfold FL.insert; rw [h]
+
 theorem insert_list_mem (fl : FL) (f : Frag) (t : Int) : ∀ x ∈ (fl.insert f t).1.list, x = f ∨ x ∈ fl.list := by
-  unfold FL.insert
-  split
-  · intro x hx; exact Or.inr hx
-  · rename_i l hl
-    have := place_mem fl f l hl
-    dsimp only
-    split <;> exact this
+  cases hp : place fl f with
+  | none => rw [insert_none _ _ _ hp]; intro x hx; exact Or.inr hx
+  | some l => rw [insert_some _ _ _ l hp]; exact place_mem fl f l hp
+
+theorem build_safe (fl : FL) (f : Frag) (S : Frag → Prop)
+    (hS : ∀ g ∈ fl.list, securityChecks g = true ∧ S g) :
+    (∀ k, build fl f ≠ .panic k) ∧
+    (∀ d, build fl f = .out d → ∀ i b, d.payload[i]? = some b → ∃ g, S g ∧ Placed g i b) := by
+  obtain ⟨hp, ho⟩ := buildLoop_safe S fl.list 0 [] hS rfl (by omega) (fun i b h => by simp at h)
+  unfold build
+  cases hb : buildLoop fl.list 0 [] with
+  | ok bytes =>
+    refine ⟨fun k h => (by cases h), ?_⟩
+    intro d hd
+    cases hd
+    exact ho bytes hb
+  | err e => exact ⟨fun k h => (by cases h), fun d h => (by cases h)⟩
+  | panic k => exact absurd hb (hp k)
 
 /-- What `insert` returns: never a panic, and a datagram only of bytes placed by stored fragments. -/
 theorem insert_reply_safe (fl : FL) (f : Frag) (t : Int) (S : Frag → Prop)
     (hS : ∀ g ∈ (fl.insert f t).1.list, securityChecks g = true ∧ S g) :
     (∀ k, (fl.insert f t).2 ≠ .panic k) ∧
     (∀ d, (fl.insert f t).2 = .out d → ∀ i b, d.payload[i]? = some b → ∃ g, S g ∧ Placed g i b) := by
-  unfold FL.insert at hS ⊢
-  split
-  · exact ⟨fun k h => (by cases h), fun d h => (by cases h)⟩
-  · rename_i l hl
+  cases hp : place fl f with
+  | none =>
+    rw [insert_none _ _ _ hp]
+    exact ⟨fun k h => (by cases h), fun d h => (by cases h)⟩
+  | some l =>
+    rw [insert_some _ _ _ l hp] at hS ⊢
     dsimp only at hS ⊢
-    split
-    · rename_i hcond
-      have hS' : ∀ g ∈ l, securityChecks g = true ∧ S g := by
-        intro g hg
-        have := hS g
-        simp only [hcond, if_true] at this
-        exact this hg
-      obtain ⟨hp, ho⟩ := buildLoop_safe S l 0 [] hS' rfl (by omega) (fun i b h => by simp at h)
-      unfold build
-      dsimp only
-      split
-      · rename_i bytes hb
-        refine ⟨fun k h => (by cases h), ?_⟩
-        intro d hd
-        cases hd
-        exact ho bytes hb
-      · exact ⟨fun k h => (by cases h), fun d h => (by cases h)⟩
-      · rename_i k hk
-        exact absurd hk (hp k)
-    · exact ⟨fun k h => (by cases h), fun d h => (by cases h)⟩
+    by_cases hr : (fl.upd l f t).ready = true
+    · simp only [hr, if_true]
+      exact build_safe _ f S hS
+    · simp only [hr]
+      exact ⟨fun k h => (by cases h), fun d h => (by cases h)⟩
 
 /-- `defrag` in terms of `insert`, for a fragment that is neither passed through nor rejected. -/
 theorem defrag_eq (st : State) (f : Frag) (t : Int) (h1 : dontDefrag f = false) (h2 : securityChecks f = true) :
@@ -115,5 +120,82 @@ theorem stored_after (H : List Op) (st : State) (f : Frag) (t : Int) (h : Prov H
     exact ⟨h2, List.mem_append_right _ (by simp [offered])⟩
   · have := flOr_list_mem st f.key H h g hm
     exact ⟨this.1, List.mem_append_left _ this.2⟩
+
+theorem prov_defrag (H : List Op) (st : State) (f : Frag) (t : Int) (h : Prov H st) :
+    Prov (H ++ [.inp f t]) (defrag st f t).1 := by
+  have hm := prov_mono H (.inp f t) st h
+  by_cases h1 : dontDefrag f = true
+  · unfold defrag; simp only [h1, if_true]; exact hm
+  · by_cases h2 : securityChecks f = true
+    · have h1' : dontDefrag f = false := by simpa using h1
+      have hst := stored_after H st f t h h2
+      rw [defrag_eq st f t h1' h2]
+      have he : Prov (H ++ [.inp f t]) (st.erase f.key) := prov_sub _ _ _ hm (erase_sub st f.key)
+      have hs : Prov (H ++ [.inp f t]) (st.set f.key ((st.flOr f.key).insert f t).1) :=
+        prov_set _ _ _ _ hm hst
+      split
+      · exact he
+      · exact hs
+      · split
+        · exact he
+        · exact hs
+    · unfold defrag
+      have h1' : dontDefrag f = false := by simpa using h1
+      have h2' : securityChecks f = false := by simpa using h2
+      simp only [h1', h2', Bool.false_eq_true, if_false, Bool.not_false, if_true]
+      exact hm
+
+theorem prov_discard (H : List Op) (st : State) (t : Int) (h : Prov H st) :
+    Prov (H ++ [.discard t]) (discard st t).1 :=
+  prov_sub _ _ _ (prov_mono H _ st h) (fun p hp => (List.mem_filter.1 hp).1)
+
+theorem prov_step (H : List Op) (st : State) (op : Op) (h : Prov H st) : Prov (H ++ [op]) (step st op).1 := by
+  cases op with
+  | inp f t => exact prov_defrag H st f t h
+  | discard t => exact prov_discard H st t h
+
+theorem prov_run : ∀ (ops : List Op) (H : List Op) (st : State), Prov H st → Prov (H ++ ops) (run st ops).1
+  | [], H, st, h => by simpa [run] using h
+  | op :: ops, H, st, h => by
+    have := prov_run ops (H ++ [op]) (step st op).1 (prov_step H st op h)
+    simpa [run, List.append_assoc] using this
+
+theorem prov_empty : Prov [] {} := fun p hp => by cases hp
+
+/-- One step from a state with provenance: no panic; a returned datagram (other than a
+    passed-through packet) consists of bytes placed by fragments offered under its key. -/
+theorem defrag_safe (H : List Op) (st : State) (f : Frag) (t : Int) (h : Prov H st) :
+    (∀ k, (defrag st f t).2 ≠ .panic k) ∧
+    (dontDefrag f = false → ∀ d, (defrag st f t).2 = .out d → ∀ i b, d.payload[i]? = some b →
+      ∃ g, g ∈ offered f.key (H ++ [.inp f t]) ∧ Placed g i b) := by
+  by_cases h1 : dontDefrag f = true
+  · unfold defrag; simp only [h1, if_true]
+    exact ⟨fun k hk => (by cases hk), fun hc => (by cases hc)⟩
+  · have h1' : dontDefrag f = false := by simpa using h1
+    by_cases h2 : securityChecks f = true
+    · obtain ⟨hp, ho⟩ := insert_reply_safe (st.flOr f.key) f t
+        (fun g => g ∈ offered f.key (H ++ [.inp f t])) (stored_after H st f t h h2)
+      rw [defrag_eq st f t h1' h2]
+      cases hr : ((st.flOr f.key).insert f t).2 with
+      | out d =>
+        refine ⟨fun k hk => (by cases hk), ?_⟩
+        intro _ d' hd
+        cases hd
+        exact ho d hr
+      | panic k => exact absurd hr (hp k)
+      | none =>
+        dsimp only
+        constructor
+        · intro k hk; split at hk <;> cases hk
+        · intro _ d hd; split at hd <;> cases hd
+      | err =>
+        dsimp only
+        constructor
+        · intro k hk; split at hk <;> cases hk
+        · intro _ d hd; split at hd <;> cases hd
+    · have h2' : securityChecks f = false := by simpa using h2
+      unfold defrag
+      simp only [h1', h2', Bool.false_eq_true, if_false, Bool.not_false, if_true]
+      exact ⟨fun k hk => (by cases hk), fun _ d hd => (by cases hd)⟩
 
 end Gp.Frag4
